@@ -420,14 +420,15 @@ fn main() {
                     ));
                 }
 
+                // the remaining commands start in a fresh block, which is the last one
+                if !codes.last().unwrap().is_empty() {
+                    codes.push(Vec::new());
+                }
                 res.push_str(&*format!(
                     "
     state = {};",
-                    codes.len(),
+                    codes.len() - 1,
                 ));
-            }
-            if !codes.last().unwrap().is_empty() {
-                codes.push(Vec::new());
             }
         }
 
